@@ -103,7 +103,7 @@ def gen_matrix(rnd, hist, i, k):
 
 def gen_histories(seed, tier):
     rnd = random.Random(seed)
-    n_clean, n_raw = (90, 30) if tier == "quick" else (900, 300)
+    n_clean, n_raw = (72, 24) if tier == "quick" else (900, 300)
     hists, mats, raws = [], [], []
     for j in range(n_clean + n_raw):
         raw = j >= n_clean
